@@ -528,11 +528,11 @@ func judgeClient(res *vh.Result, e *env, c *concCfg, rq *concReq, warm []string,
 	if !allowed {
 		res.Count("denied", 1)
 		if rv.n > 0 {
-			res.Violate(key("denied-replied"), "a source outside the access list got a reply ("+rv.text+") "+desc, rp)
+			violate(res, key("denied-replied"), "a source outside the access list got a reply ("+rv.text+") "+desc, rp)
 		}
 		for _, k := range behindGate {
 			if d[k] != 0 {
-				res.Violate(key("denied-downstream-"+k), fmt.Sprintf("a denied query reached %s behind the gate %s", k, desc), rp)
+				violate(res, key("denied-downstream-"+k), fmt.Sprintf("a denied query reached %s behind the gate %s", k, desc), rp)
 			}
 		}
 		if model != nil && (model.Written != "none") {
@@ -542,7 +542,7 @@ func judgeClient(res *vh.Result, e *env, c *concCfg, rq *concReq, warm []string,
 	}
 	res.Count("allowed", 1)
 	if d["afterACL"] != 1 {
-		res.Violate(key("allowed-dropped"), fmt.Sprintf("a source inside the access list was stopped at the gate (probe behind it ran %d times) %s", d["afterACL"], desc), rp)
+		violate(res, key("allowed-dropped"), fmt.Sprintf("a source inside the access list was stopped at the gate (probe behind it ran %d times) %s", d["afterACL"], desc), rp)
 		return
 	}
 	if rq.Qtype != dns.TypeA || rq.Class != dns.ClassINET || !strings.HasSuffix(dns.CanonicalName(rq.Qname), viewZone) {
@@ -554,13 +554,13 @@ func judgeClient(res *vh.Result, e *env, c *concCfg, rq *concReq, warm []string,
 	}
 	switch {
 	case rv.from == "views" && rv.view != wantView:
-		res.Violate(key("wrong-view"), fmt.Sprintf("view %d answered, the first view containing the client is %d (answers there: %v) %s views=%+v",
+		violate(res, key("wrong-view"), fmt.Sprintf("view %d answered, the first view containing the client is %d (answers there: %v) %s views=%+v",
 			rv.view, fm, fm != 0 && c.Views[fm-1].Has, desc, c.Views), rp)
 	case rv.from != "views" && wantView != 0:
-		res.Violate(key("view-skipped"), fmt.Sprintf("the first matching view %d has the record but did not answer (reply: %s) %s views=%+v",
+		violate(res, key("view-skipped"), fmt.Sprintf("the first matching view %d has the record but did not answer (reply: %s) %s views=%+v",
 			wantView, rv.text, desc, c.Views), rp)
 	case rv.n == 0:
-		res.Violate(key("allowed-unanswered"), "an allowed query was not answered "+desc, rp)
+		violate(res, key("allowed-unanswered"), "an allowed query was not answered "+desc, rp)
 	}
 	if rv.from == "views" {
 		res.Count("view_answers", 1)
@@ -794,7 +794,11 @@ func TestGateHandlers(t *testing.T) {
 				if o.Req.Kind != "client" {
 					continue
 				}
-				for _, proto := range protos {
+				ps := protos
+				if !vh.Thorough() { // quick tier: two of the four transports per case, rotating
+					ps = []string{protos[n%4], protos[(n+2)%4]}
+				}
+				for _, proto := range ps {
 					n++
 					rq := cn.req(&o.Req, n, proto)
 					judgeClient(res, e, &cc, &rq, nil, o)
@@ -844,7 +848,7 @@ func checkSubPipelines(res *vh.Result, e *env, in *gateInput, c *concCfg) {
 			co, isCO := h.(middleware.ClientOnly)
 			switch {
 			case policyHandlers[h.Name()]:
-				res.Violate("gate|subpipeline|"+pq.pipe+"|"+h.Name(),
+				violate(res, "gate|subpipeline|"+pq.pipe+"|"+h.Name(),
 					fmt.Sprintf("the %s sub-pipeline that resolver-internal sub-queries run on contains the client policy handler %q: %v",
 						pq.pipe, h.Name(), names(sub)), rp)
 			case isCO && co.ClientOnly():
@@ -889,12 +893,12 @@ func judgeInternal(res *vh.Result, e *env, c *concCfg, pipe, qname string, model
 	key := fmt.Sprintf("gate|internal|%s|acl=%s|views=%d", pipe, strings.Join(c.AccessList, ","), len(c.Views))
 	desc := fmt.Sprintf("[%s sub-query for %s, access list %q, views %+v]", pipe, qname, c.AccessList, c.Views)
 	if err != nil || resp == nil {
-		res.Violate(key+"|unanswered", fmt.Sprintf("a resolver-internal sub-query was not answered (err=%v): client policy applied to it? %s", err, desc), rp)
+		violate(res, key+"|unanswered", fmt.Sprintf("a resolver-internal sub-query was not answered (err=%v): client policy applied to it? %s", err, desc), rp)
 		return
 	}
 	rv := classifyMsg(resp)
 	if rv.from == "views" {
-		res.Violate(key+"|view", fmt.Sprintf("a resolver-internal sub-query was answered by view %d %s", rv.view, desc), rp)
+		violate(res, key+"|view", fmt.Sprintf("a resolver-internal sub-query was answered by view %d %s", rv.view, desc), rp)
 		return
 	}
 	if e.probes["beforeCache"].internal-ib != 1 {
@@ -935,7 +939,7 @@ func runDefaultConfig(res *vh.Result, in *gateInput, cn *conc, cc *concCfg, case
 			if sub := middleware.VerifQueryerSub(q); sub != nil {
 				for _, h := range sub.Handlers() {
 					if policyHandlers[h.Name()] {
-						res.Violate("gate|subpipeline|"+h.Name(), fmt.Sprintf("an internal sub-pipeline contains the client policy handler %q: %v", h.Name(), names(sub)),
+						violate(res, "gate|subpipeline|"+h.Name(), fmt.Sprintf("an internal sub-pipeline contains the client policy handler %q: %v", h.Name(), names(sub)),
 							gateReplay{Kind: "gate", Level: "default", Cfg: *cc, Int: "structure"})
 					}
 				}
@@ -967,7 +971,7 @@ func runDefaultConfig(res *vh.Result, in *gateInput, cn *conc, cc *concCfg, case
 				if rq.Qname != warmName {
 					before := e.tail.n
 					if _, err := e.internal("query", rq.Qname); err == nil && e.tail.n-before != 1 {
-						res.Violate("gate|default|denied-cached|"+strings.Join(cc.AccessList, ","),
+						violate(res, "gate|default|denied-cached|"+strings.Join(cc.AccessList, ","),
 							fmt.Sprintf("after a denied query for %s a later lookup did not reach the resolver (tail ran %d times): the denied query left cache state", rq.Qname, e.tail.n-before),
 							gateReplay{Kind: "gate", Level: "default", Cfg: *cc, Req: rq, Warm: warm, Model: o})
 					}
